@@ -245,6 +245,15 @@ def run_case(ctx, case):
     if got != want or tuple(dec.netqasm_version) != tuple(case["version"]) or dec.app_id != case["app_id"]:
         first = next((f"{w} read as {g}" for g, w in zip(got, want) if g != w), "header/length")
         ctx.fail(case, f"{flav}: reference bytes are decoded differently by the repo: {first}")
+    elif case["kind"] == "instr" and nontrivial and ctx.evaluations % 2 == 0:
+        # a DECODED subroutine that is addressed to another application and sent on (a controller forwarding a program):
+        # its bytes carry the new application, everything else as received
+        app2 = case["app_id"] ^ 0x4004
+        dec.instantiate(app2, {})
+        ctx.count("decoded_then_readdressed_reencodings")
+        if bytes(dec) != isa.encode_subroutine(flav, case["version"], app2, case["instrs"]):
+            ctx.fail(case, f"{flav}: reference bytes decoded, addressed to app {app2} via instantiate and encoded again: the bytes start "
+                           f"{bytes(dec)[:4].hex()}, the layout says {isa.encode_subroutine(flav, case['version'], app2, case['instrs'])[:4].hex()}")
     elif case["kind"] in ("header", "instr") or not case["instrs"]:
         # the same (pre-compiled) Subroutine object is encoded, addressed to another application (instantiate() / the app_id
         # setter), and encoded again: the header carries the application it is addressed to *now*
